@@ -214,6 +214,84 @@ func scenarioWrap(cfg hlib.ChanCfg, wrap hlib.Wrap, eps []int, sizes []int, scri
 	}
 }
 
+// afterFailure: a channel whose transport starts failing while more than one sender batch is queued is
+// torn down (the failing sender, then Close draining the rest); afterwards a healthy channel sends
+// payloads of the same size class from a reused buffer. Whatever the failed channel did with its pooled
+// buffers must not disturb the healthy channel's payloads (the pool is process-wide).
+func afterFailure(q int, bound int) *explore.Scenario {
+	type fobs struct {
+		a, b  *hlib.Env
+		calls []*hlib.Call
+	}
+	return &explore.Scenario{
+		Name:  fmt.Sprintf("aq(%d,B) with a failing transport and %d queued writes, then a healthy channel", q, q+1),
+		Bound: bound,
+		Cache: true,
+		Cfg:   vsched.Config{MaxSteps: 8000},
+		Init:  func() any { return &fobs{} },
+		Body: func(v any) {
+			o := v.(*fobs)
+			o.a = hlib.NewEnv(hlib.ChanCfg{Q: q, Until: true}, nil)
+			o.a.T.FailWritesFrom = 1
+			w := vsched.Go("writer", func() {
+				buf := make([]byte, 8)
+				for i := 0; i < q+1; i++ {
+					copy(buf, mock.Payload(100+i, 8))
+					o.a.Ch.Write1(buf) // may fail once the channel has been closed by the failing sender
+				}
+				o.a.Ch.Close(nil)
+				// the healthy channel
+				o.b = hlib.NewEnv(hlib.ChanCfg{Q: 4, Until: true}, nil)
+				for i := 0; i < 3; i++ {
+					c := hlib.NewCall(i+1, hlib.Write1, 6+i)
+					o.calls = append(o.calls, c)
+					p := buf[:c.Size]
+					copy(p, mock.Payload(c.ID, c.Size))
+					c.Begin = vsched.X.Steps()
+					n, err := o.b.Ch.Write1(p)
+					c.N, c.Err, c.End = int64(n), err, vsched.X.Steps()
+					for j := range buf {
+						buf[j] = 0xEE
+					}
+				}
+			})
+			vsched.Join(w)
+		},
+		Outcome: func(x *vsched.Exec, v any) string {
+			o := v.(*fobs)
+			if o.b == nil {
+				return "no second channel"
+			}
+			return o.a.T.LogString() + " || " + o.b.T.LogString()
+		},
+		Check: func(x *vsched.Exec, v any) []explore.Finding {
+			o := v.(*fobs)
+			if o.b == nil || x.Abnormal() != "" {
+				return nil
+			}
+			calls := map[int]*hlib.Call{}
+			for _, c := range o.calls {
+				calls[c.ID] = c
+			}
+			seq, perr := hlib.ParseWire(o.b.T.Wire(), calls)
+			if perr != "" {
+				return []explore.Finding{{Key: "altered-bytes/healthy-channel-after-a-failed-one", Msg: "the healthy channel transmitted bytes its callers never wrote: " + perr + "; log: " + o.b.T.LogString()}}
+			}
+			var fs []explore.Finding
+			on := map[int]bool{}
+			for _, id := range seq {
+				on[id] = true
+			}
+			for _, c := range o.calls {
+				if c.OK() && !on[c.ID] {
+					fs = append(fs, explore.Finding{Key: "accepted-not-sent/healthy-channel-after-a-failed-one", Msg: fmt.Sprintf("payload #%d accepted by the healthy channel but never transmitted; log: %s", c.ID, o.b.T.LogString())})
+				}
+			}
+			return fs
+		},
+	}
+}
+
 func build(tier string) []*explore.Scenario {
 	var scs []*explore.Scenario
 	bound := 2
@@ -259,6 +337,10 @@ func build(tier string) []*explore.Scenario {
 				scenarioWrap(cfg, wrap, []int{eWritev3, eCtxWrite1, eReadFrom}, []int{1024, 8, 1500}, true, bound-1),
 			)
 		}
+	}
+	scs = append(scs, afterFailure(4, 1))
+	if tier == "thorough" {
+		scs = append(scs, afterFailure(4, 2), afterFailure(8, 2))
 	}
 	// Rejected writes on a full non-blocking queue (single-chunk payloads only: nothing is ever partially
 	// accepted) followed by accepted writes of the same size class: a rejected call's buffer handling
